@@ -7,6 +7,7 @@ import time
 from vf.core import Gen
 
 META = dict(
+    technique="solver-based bounded symbolic execution of the real code (CrossHair + z3), counterexample replay; plus AST->z3 translation of get_mount's selection expression (bounded proof over strings <= 12)",
     functions_encoded=["pydra.utils.mount_identifier.MountIndentifier.get_mount",
                        "MountIndentifier.patch_table", "MountIndentifier.on_same_mount",
                        "MountIndentifier.on_cifs", "MountIndentifier.parse_mount_table"],
